@@ -221,6 +221,10 @@ def task_element(kind, which, fmt=None):
         if which == "to_def_message":
             run.oblige("C07|%s/carries-the-label" % label, I.to_term(f["label"]) == lab)
         vt = I.to_term(f["value"])
+        # "read back unchanged" (C03) is about wire-typed content: text or nothing -- an object would travel as its repr()
+        run.oblige("C07,C01|%s/element-content-is-text-or-absent(never-an-object)" % label, z3.Or(is_none(vt), is_str(vt)))
+        if kind == "blob" and which == "to_def_message":
+            run.oblige("C07,C01,C08|%s/a-definition-carries-no-payload" % label, is_none(vt))
         if kind in ("text", "switch", "light"):
             run.oblige("C07|%s/carries-the-current-value" % label, vt == cur)
         elif kind == "number":
